@@ -1,7 +1,7 @@
 (* C16 -- non-vacuity: concrete non-trivial inputs meet the hypotheses of the theorems
    (R := Z), and the two sides of each statement evaluate to the same non-zero numbers. *)
 From Coq Require Import List Arith ZArith Lia.
-From Verif.C16 Require Import Model Proofs Proofs2 Cases.
+From Verif.C16 Require Import Model Model2 Proofs Proofs2 Proofs3 Cases.
 Import ListNotations.
 Open Scope Z_scope.
 
@@ -143,4 +143,30 @@ Example ex_fastdiag_value :
   map (fun i => sumn Z zO Z.add 4 (fun j => lap_ent Z 0 1 Z.add Z.mul [ex_f1; ex_f2] i j *
          aat Z (fastdiag_apply Z zO Z.add Z.mul [D 2 2 [0;1;1;0]; D 2 2 [0;1;1;0]] (zvec [1;1;-1;-1]) (zarr [4]%nat [1;2;3;4])) [j]))
       [0;1;2;3]%nat = [1;2;3;4].
+Proof. vm_compute. reflexivity. Qed.
+
+(* ---- third part ---- *)
+(* kron_reduce_spec: the left-nested product of three factors, an in-range entry *)
+Definition ex_three : list (mat Z) := [zmat 2 3 [1;2;3;4;5;6]; zmat 2 2 [1;0;2;1]; zmat 1 2 [3;-1]].
+Example ex_kron_reduce :
+  ment Z (kron_reduce Z 1 Z.mul ex_three) 3 11 = -6 /\ kron_ent Z 1 Z.mul ex_three 3 11 = -6 /\
+  (3 < prodl (rowsl Z ex_three))%nat /\ (11 < prodl (colsl Z ex_three))%nat.
+Proof. vm_compute. repeat split; lia. Qed.
+
+(* lap_code_spec / diag_code_spec on the two-direction example of ex_eig_ok *)
+Example ex_lap_code :
+  map (fun ij => fastdiag_lap_code Z 0 1 Z.add Z.mul (map (fK Z) [ex_f1; ex_f2]) (map (fM Z) [ex_f1; ex_f2]) (fst ij) (snd ij))
+      [(0,0);(1,1);(2,2);(3,3);(0,1)]%nat = [-1; -1; 1; 1; 0] /\
+  map (fun ij => lap_ent Z 0 1 Z.add Z.mul [ex_f1; ex_f2] (fst ij) (snd ij)) [(0,0);(1,1);(2,2);(3,3);(0,1)]%nat = [-1; -1; 1; 1; 0].
+Proof. vm_compute. auto. Qed.
+Example ex_diag_code :
+  map (fastdiag_diag_code Z 0 1 Z.add Z.mul (sizes Z [ex_f1; ex_f2]) (map (flam Z) [ex_f1; ex_f2])) [0;1;2;3]%nat = [1;1;-1;-1].
+Proof. vm_compute. reflexivity. Qed.
+
+(* fastdiag_inverts_multi: two right-hand sides *)
+Example ex_fastdiag_multi :
+  map (fun ik => sumn Z zO Z.add 4 (fun j => lap_ent Z 0 1 Z.add Z.mul [ex_f1; ex_f2] (fst ik) j *
+         aat Z (fastdiag_apply_mat Z zO Z.add Z.mul [D 2 2 [0;1;1;0]; D 2 2 [0;1;1;0]] (zvec [1;1;-1;-1])
+                  (zarr [4;2]%nat [1;5;2;6;3;7;4;8])) [j; snd ik]))
+      [(0,0);(1,0);(2,0);(3,0);(0,1);(3,1)]%nat = [1;2;3;4;5;8].
 Proof. vm_compute. reflexivity. Qed.
